@@ -22,7 +22,8 @@ FUNCTIONS = {
             (RR, TR + 'stopTest')] + EVENTS + [PROTOCOL, RUN_TESTS, RUNNER_LOOP],
     'C05': [(L, 'runner.gather_layers'), (L, 'runner.order_by_bases'), (RR, TR + '__init__'), (RR, TR + 'testSetUp'),
             (RR, TR + 'testTearDown'), (RR, TR + 'startTest'), (RR, TR + 'stopTest'), (RR, TR + 'addSkip'), PROTOCOL],
-    'C08': [('filter_c08', 'filter.build_filtering_func')],
+    'C08': [('filter_c08', 'filter.build_filtering_func'), ('find_c14', 'find.find_suites'),
+            ('select_c03', 'filter.Filter.global_setup'), ('select_c03', 'find.find_tests')],
     'C12': [(RR, TR + 'startTest'), (RR, TR + 'addSkip'), PROTOCOL, RUN_TESTS],
     'C13': [(RR, TR + '__init__'), (RR, TR + '_setUpStdStreams'), (RR, TR + '_restoreStdStreams'),
             (RR, TR + 'startTest'), (RR, TR + 'stopTest')] + EVENTS + [PROTOCOL, RUN_TESTS],
@@ -48,6 +49,9 @@ FUNCTIONS = {
             ('runner_order', 'runner.Runner.ordered_layers'), RUN_TESTS, RUNNER_LOOP,
             ('runner_spawn', 'runner.spawn_layer_in_subprocess'), ('features_c18', 'runner.Runner.run')],
     'C06': [('runner_sched', 'runner.resume_tests'), ('runner_spawn', 'runner.spawn_layer_in_subprocess')],
+    'C14': [('find_c14', f) for f in ('find.strip_py_ext', 'find.contains_init_py', 'find.find_test_files_',
+                                      'find.find_test_files', 'find.find_suites', 'find.test_dirs',
+                                      'options.get_options@prefix')],
     'C10': [('runner_order', f) for f in ('runner.gather_layers', 'runner.order_by_bases', 'runner.order_by_bases@unitfirst',
                                           'runner.layer_sort_key', 'runner.layer_sort_key._gather',
                                           'runner.Runner.ordered_layers')],
@@ -286,5 +290,22 @@ MANIFEST = {
         'note': COMMON_NOTE + "Assumed: the rely R1-R3; threading.Thread/queue.Queue stdlib behaviour; a test's outcome does "
                 "not depend on the process it runs in (sentence 1). The final counting step (members of a list of length "
                 "<= N are at most N threads) is outside SMT. Liveness (the loop terminates) is not decided.",
+    },
+    'C14': {
+        'text': "Proof of the per-directory decision and of the plumbing around it: find_test_files_ (real nested loops and "
+                "the inlined closure update_root2ext) prunes dirs in place to exactly the identifier-named, non-ignored "
+                "ones; at the yield statement the path is join(dirname, f) for a file f of that directory whose stem matches "
+                "the tests pattern or -- inside a package directory that itself matches it and holds an __init__ -- the "
+                "test-file pattern; every such file's stem has its winner yielded; the paths of one directory come out "
+                "sorted; find_test_files yields each path of that stream at its first occurrence only (once, however the "
+                "search paths overlap); find_suites calls import_name only with a module name the --module filter has "
+                "accepted (ghost set of imported modules) and turns import / test_suite errors into StartUpFailure (only "
+                "KeyboardInterrupt leaves); test_dirs yields the search paths, or with --package only package paths under "
+                "a search prefix, each once; get_options sorts the prefixes longest first; strip_py_ext and "
+                "contains_init_py against their specifications.",
+        'note': COMMON_NOTE + "Assumed: os.walk / walk_with_symlinks enumerate the tree top-down, sort dirs and files and "
+                "honour in-place pruning (the traversal itself is not verified); os.path functions and regular "
+                "expressions are pure; the internal assert in find_suites is not decided. Sortedness across directories "
+                "follows from the sorted walk (assumed).",
     },
 }
